@@ -56,6 +56,15 @@ func (k Keeper) PrepareProposalHandler(
 			iterator := txpool.Select(sdkctx, rpp.Txs)
 			for iterator != nil {
 				memTx := iterator.Tx()
+				// the block transaction built above takes the proposer account's next sequence number:
+				// if that account is also the relayer proposer, its own pending transactions cannot follow
+				// it in this block (every validator would refuse the proposal for their sequence)
+				if sigTx, ok := memTx.(xauthsigning.SigVerifiableTx); ok {
+					if signers, err := sigTx.GetSigners(); err == nil && len(signers) == 1 && bytes.Equal(signers[0], rpp.ProposerAddress) {
+						iterator = iterator.Next()
+						continue
+					}
+				}
 				txBytes, err := txVerifier.PrepareProposalVerifyTx(memTx)
 				if err != nil {
 					k.Logger().Info("Remove tx from mempool", "reason", err.Error())
